@@ -152,6 +152,17 @@ def structure_recipes(seed):
     recG["via"] = "memory"
     recG["noswitch"] = True
     out.append(recG)
+    # I: substitutional disorder in P1 - two elements share one site with occupancies 7/12 and 5/12 (the unit-cell listing merges
+    #    them; the asymmetric unit keeps both as given)
+    recI = None
+    while recI is None:
+        recI = xtal.gen_molecular(rng, rowF, nmols=1, sizes=(3,), n=48, with_h=False)
+    first = recI["asym"][0]
+    first["occ"] = 7
+    recI["asym"].append({"z": 16, "p": list(first["p"]), "occ": 5, "label": "S%d" % (len(recI["asym"]) + 1)})
+    recI["via"] = "memory"
+    recI["noswitch"] = True
+    out.append(recI)
     # H: a molecule with at least two hydrogens on C, N or O (X-H distances as X-ray structures give them, to be normalised)
     recH = None
     for _ in range(400):
